@@ -122,11 +122,11 @@ Inductive instr :=
 (* Receive *)
 | IRcvGet (r : rcv)
 | IRcvChk (r : rcv) (rk : key) (g : option (item * bool))                    (* at relay.Receive.afterGet *)
-| IRcvEnq (r : rcv) (rk : key)
+| IRcvEnq (r : rcv) (rk : key) (lk : Z * Z)                  (* lk = (destination, remapID) of the item looked up at rk *)
 (* failRelayItem / Entomb / finishRelayItem / OnTimer *)
 | IFailGet (t : key) (reason : Z)
 | IEntomb (t : key) (s : esrc)
-| IDelete (t : key)
+| IDelete (t : key) (lk : Z * Z)                             (* finishRelayItem(items, id, lookedUp): lk = (destination, remapID) of lookedUp *)
 | ITimerRun (tm : Z).
 
 Inductive tid := TR (k : Z) | TT (tm : Z).
@@ -292,6 +292,19 @@ Definition items_delete (st : state) (t : key) : state * option (item * bool) :=
       (timer_release st1 (it_tm it), Some (it, negb (it_tomb it)))
   end.
 
+(* relayItems.deleteCall (finishRelayItem): Delete for a caller that looked the item up earlier
+   and let go of the lock in between.  The item is removed only if it still belongs to the call
+   the caller looked up -- same destination relayer and same destination-side id [lk]; any other
+   item found under the id (the id was re-used by a new call) is left alone. *)
+Definition items_delete_call (st : state) (t : key) (lk : Z * Z) : state * option (item * bool) :=
+  match lookup key_eqb t (items st) with
+  | None => (st, None)
+  | Some it =>
+      if (it_dest it =? fst lk) && (it_remap it =? snd lk)
+      then items_delete st t
+      else (st, None)
+  end.
+
 (* relayItems.deleteTomb: the scheduled collection of the tombstone left for t.  It deletes a
    tombstone only: nothing there (deleted in the meantime) or a NON-tombstone (the tombstone was
    deleted and the id re-used by a live call) is left alone. *)
@@ -323,7 +336,9 @@ Definition req_frame (id : Z) (cont : bool) (more : bool) : frame :=
 
 (* what the caller of Receive does after it returned sent = true *)
 Definition after_sent (r : rcv) : list instr :=
-  (if fin_of (r_f r) then [IDelete (r_own r)] else []) ++
+  (* the caller's own item was looked up by handleNonCallReq: the frame was sent to its
+     destination relayer [r_d r] under its destination-side id [f_id (r_f r)] *)
+  (if fin_of (r_f r) then [IDelete (r_own r) (r_d r, f_id (r_f r))] else []) ++
   (if 0 <? r_more r
    then [ICb (r_call r) CbSent;
          IRcvGet {| r_d := r_d r; r_f := req_frame (f_id (r_f r)) true (1 <? r_more r); r_ft := r_ft r;
@@ -455,12 +470,12 @@ Definition exec (cf : config) (st : state) (i : instr) (room : bool) : state * l
                 else if 0 <? zlen (dcsFailMsg (f_mt f) (f_code f) [reason_syscode (f_code f)])
                      then [ICb (it_call it) (CbFailed (reason_of_msg (dcsFailMsg (f_mt f) (f_code f) [reason_syscode (f_code f)])))]
                      else []
-              else []) ++ [IRcvEnq r rk])
+              else []) ++ [IRcvEnq r rk (it_dest it, it_remap it)])
       end
-  | IRcvEnq r rk =>
+  | IRcvEnq r rk lk =>
       if room then
         (set_sent st ((r_d r, r_f r) :: sent st),
-         (if fin_of (r_f r) then [IDelete rk] else []) ++ after_sent r)
+         (if fin_of (r_f r) then [IDelete rk lk] else []) ++ after_sent r)
       else
         let reason := if r_ft r =? c_responseFrame then reason_source_slow else reason_dest_slow in
         (st, IFailGet rk reason :: after_unsent r reason)
@@ -478,8 +493,8 @@ Definition exec (cf : config) (st : state) (i : instr) (room : bool) : state * l
           (st', (if orig then orig_tail (key_conn t) (key_id t) (it_call it) s else []) ++ [IDec (key_conn t)])
       | _ => (st', [])
       end
-  | IDelete t =>
-      let '(st', g) := items_delete st t in
+  | IDelete t lk =>
+      let '(st', g) := items_delete_call st t lk in
       match g with
       | Some (it, true) => (st', (if it_orig it then [ICb (it_call it) CbEnd] else []) ++ [IDec (key_conn t)])
       | _ => (st', [])
